@@ -124,6 +124,14 @@ def gen_netcdf(rng, path, shadow_bias=0.6):
             else:
                 rank = rng.choice([0, 1, 1, 2, 2, 3])
                 dims = tuple(rng.sample(visible, min(rank, len(visible))))
+                if rng.random() < 0.3 and rank >= 2 and visible:
+                    # a dimension used twice by one variable: d(x,x), u(x,y,x) — never an unlimited one twice
+                    rep = [d for d in visible if not _find_dim(grp, d).isunlimited()] or None
+                    if rep:
+                        d0 = rng.choice(rep)
+                        dims = tuple(rng.choice([d0, d0, rng.choice(visible)]) for _ in range(rank))
+                        if len([d for d in dims if _find_dim(grp, d).isunlimited()]) > 1:
+                            dims = (d0,) * rank
             kw = {}
             if ty != "S1" and rng.random() < 0.35:
                 kw["fill_value"] = {"f": -999.0}.get(ty[0], 7)
@@ -397,8 +405,11 @@ def rand_key(rng, shape):
         a = rng.randint(0, n - 1)
         b = rng.randint(a, n - 1)
         k = rng.choice([1, 1, 1, 2, 3])
-        if rng.random() < 0.25:
+        r = rng.random()
+        if r < 0.25:
             a, b, k = 0, n - 1, 1
+        elif r < 0.45:
+            k = (b - a) + rng.choice([1, 2, 7])          # stride larger than the span: one element
         key.append((a, b + 1, k))
     return key
 
@@ -464,6 +475,8 @@ def check_netcdf(ctx, rng, idx, tmp, cases, lazy_cases, search=False):
         except Exception as e:  # noqa: BLE001
             ctx.oracle_fail("file variable missing from the handler dataset", case, type(e).__name__, vid)
             continue
+        if len(set(v["dims"])) != len(v["dims"]):
+            ctx.count(("nc-rep", ctx.seed, ctx._label, idx, vid), True, tag="nc:var-with-repeated-dimension:%s" % ("group" if g["path"] else "root"))
         got_ty = np.dtype(bt.dtype).str.lstrip("<>|=")
         if got_ty != v["ty"]:
             ctx.oracle_fail("variable does not have the file's type", case, got_ty, v["ty"])
@@ -517,6 +530,19 @@ def check_netcdf(ctx, rng, idx, tmp, cases, lazy_cases, search=False):
                     continue
                 ce = dotted + "".join("[%d:%d:%d]" % (a, k, b - 1) for a, b, k in key)
                 case = dict(case0, variable=vid, ce=ce)
+                wide = any(k > (b - 1) - a and not (a, b, k) == (0, n, 1) for (a, b, k), n in zip(key, v["shape"]))
+                if key:
+                    # the key pydap's own parser makes of the hyperslab text, applied per axis, vs the model's positions
+                    from pydap.parsers import parse_hyperslab
+                    sl = parse_hyperslab("".join("[%d:%d:%d]" % (a, k, b - 1) for a, b, k in key))
+                    impl_pos = "(" + " ".join("(" + " ".join(map(str, range(n)[x])) + ")" for x, n in zip(sl, v["shape"])) + ")"
+                    lazy_cases.append(("fh-slabpos (%s) (%s)" % (" ".join(map(str, v["shape"])),
+                                                                " ".join("(%d %d %d)" % (a, k, b - 1) for a, b, k in key)),
+                                       impl_pos, dict(case0, variable=vid, ce=ce)))
+                    if wide:
+                        for (a, b, k), n, got_n in zip(key, v["shape"], want_arr.shape):
+                            if k > (b - 1) - a and got_n != 1:
+                                raise common.InfraError("numpy/netCDF4 read more than one element for a stride beyond the span")
                 req = Request.blank("/g.nc.dods?" + ce)
                 req.environ["x-wsgiorg.throw_errors"] = True
                 try:
@@ -531,7 +557,7 @@ def check_netcdf(ctx, rng, idx, tmp, cases, lazy_cases, search=False):
                 exp = (DAP_OF[v["ty"]], want)
                 full = all((a, b, k) == (0, n, 1) for (a, b, k), n in zip(key, v["shape"]))
                 ctx.count(("slab", ctx.seed, ctx._label, idx, ce), not full,
-                          tag="dods:rank%d:%s:%s" % (len(v["shape"]), v["ty"], "full" if full else "sub"))
+                          tag="dods:rank%d:%s:%s" % (len(v["shape"]), v["ty"], "full" if full else "wide-stride" if wide else "sub"))
                 if obs != exp:
                     ctx.oracle_fail("served hyperslab differs from the NetCDF library's read of that slice", case,
                                     obs if isinstance(obs, str) else (obs[0], obs[1][:8]), (exp[0], exp[1][:8]),
@@ -624,11 +650,30 @@ def check_netcdf(ctx, rng, idx, tmp, cases, lazy_cases, search=False):
 
 # ------------------------------------------------------------------------------------------------
 # CSV
+QUOTING_TITLES = ["a b", "c,d", 'e"f', "a.b", "x[0]", "50%", "a%20b", "t/m", "new\nline", " "]
+
+
+def own_quote(name):
+    """the DAP spelling of a name, written independently of pydap.lib: ASCII letters, digits and `_ - ~ ! * ' " / %` stay,
+    every other byte becomes %XX (period and brackets included)"""
+    keep = set(b"abcdefghijklmnopqrstuvwxyzABCDEFGHIJKLMNOPQRSTUVWXYZ0123456789_-~!*'\"/%")
+    return "".join(chr(b) if b in keep else "%%%02X" % b for b in name.encode("utf-8"))
+
+
 def gen_csv(rng, path):
     ncols = rng.randint(1, 4)
     # plain names and an empty one (a column without
     # a title is still a column)
     header = rng.sample(["index", "temperature", "site", "a", "b", "c_1", "lat", ""], ncols)
+    # titles that need quoting as DAP names (blank, comma, quote, period, brackets, percent), two titles that are
+    # different texts but ONE name once quoted ("a b" / "a%20b"), and the same title twice (also the empty one)
+    r = rng.random()
+    if r < 0.25:
+        k = rng.randrange(ncols)
+        header[k] = rng.choice([t for t in QUOTING_TITLES if t not in header] or ["w w"])
+    if 0.15 < r < 0.4 and ncols >= 2:
+        i, j = rng.sample(range(ncols), 2)
+        header[j] = header[i] if rng.random() < 0.7 or header[i] != "a b" else "a%20b"
     kinds = [rng.choice("ns") for _ in header]
     nrows = rng.choice([0, 1, 2, 3, 5])
     rows = []
@@ -655,7 +700,7 @@ def gen_csv(rng, path):
             sidecar["DODS_EXTRA"] = {"title": "override", "Unlimited_Dimension": "index"}
         seq = {}
         for c in header:
-            if rng.random() < 0.5:
+            if rng.random() < 0.5 and own_quote(c) == c:
                 seq[c] = {"units": rng.choice(["m", "K"]), "scale": 2}
         if rng.random() < 0.3:
             seq["other"] = {"k": "v"}
@@ -687,20 +732,49 @@ def check_csv(ctx, rng, idx, tmp, cases):
         rd = list(csv.reader(f, quoting=csv.QUOTE_NONNUMERIC))
     if rd[0] != header or rd[1:] != rows:
         raise common.InfraError("csv module does not read back what was written")
+    from pydap.exceptions import OpenFileError
+
+    names = [own_quote(t) for t in header]          # the DAP spelling of every title, in the file's order
+    dup = len(set(names)) != len(names)
+    line_hdr = "fh-csvcols (%s) (%s)" % (" ".join(hs(t) for t in header), " ".join(hs(t) for t in names))
     try:
         h = CSVHandler(path)
         seq = h.dataset["sequence"]
         cols = list(seq.keys())
         got_rows = [list(r) for r in seq.iterdata()]
+    except OpenFileError as e:
+        cases.append((line_hdr, "(err)", {k: case[k] for k in ("kind", "seed", "label", "index")}))
+        ctx.count(("csv", ctx.seed, ctx._label, idx), True, tag="csv:rejected:%s" % ("duplicate-title" if dup else "other"),
+                  sample={"header": header})
+        if not dup:
+            ctx.oracle_fail("CSVHandler rejected a generated file", case, str(e)[:100], "dataset")
+        return
     except Exception as e:  # noqa: BLE001
         ctx.oracle_fail("CSVHandler failed on a generated file", case, type(e).__name__ + ": " + str(e)[:100], "dataset")
         return
+    cases.append((line_hdr, "(ok %s)" % " ".join(hs(c) for c in cols), {k: case[k] for k in ("kind", "seed", "label", "index")}))
     if list(h.dataset.keys()) != ["sequence"]:
         ctx.oracle_fail("CSV dataset is not one sequence", case, list(h.dataset.keys()), ["sequence"])
-    if cols != header:
-        ctx.oracle_fail("CSV columns are not the header names", case, cols, header)
+    if dup:
+        # two columns of one name cannot both be members of a sequence: nothing but refusing the file keeps cell j of a
+        # record under title j
+        ctx.oracle_fail("a CSV file with two columns of one name is served (cells end up under the wrong title)", case,
+                        {"columns": cols, "first record": got_rows[:1]}, {"titles": names, "expected": "file rejected"})
+        return
+    if cols != names or [c.name for c in seq.children()] != names:
+        ctx.oracle_fail("CSV columns are not the header names", case, cols, names)
     if got_rows != rows or [[type(c) for c in r] for r in got_rows] != [[type(c) for c in r] for r in rows]:
         ctx.oracle_fail("CSV records are not the file's rows in order", case, got_rows[:3], rows[:3])
+    # cell j of every record belongs to column j: each column read on its own is the j-th cells of the file's rows
+    for j, nm in enumerate(names):
+        try:
+            colv = [x for x in seq[nm].iterdata()] if rows else []
+        except Exception as e:  # noqa: BLE001
+            colv = "escaped:" + type(e).__name__
+        want_col = [r[j] for r in rows]
+        if colv != want_col or [type(x) for x in colv] != [type(x) for x in want_col]:
+            ctx.oracle_fail("column read on its own is not the column of that title in the file", dict(case, column=nm),
+                            colv if isinstance(colv, str) else colv[:3], want_col[:3])
     if sidecar is not None:
         wantg = {}
         for k in sidecar:
@@ -708,9 +782,7 @@ def check_csv(ctx, rng, idx, tmp, cases):
                 wantg.update(sidecar[k])
         if dict(h.dataset.attributes) != wantg:
             ctx.oracle_fail("side-car global attributes not attached", case, dict(h.dataset.attributes), wantg)
-        for c in header:
-            if c not in cols:
-                continue        # (already reported: the columns are not the header names)
+        for c in cols:
             want = sidecar.get("sequence", {}).get(c, {})
             if dict(seq[c].attributes) != want:
                 ctx.oracle_fail("side-car column attributes not attached", case, {c: dict(seq[c].attributes)}, {c: want})
@@ -724,7 +796,7 @@ def check_csv(ctx, rng, idx, tmp, cases):
     else:
         top = {k: v for k, v in sidecar.items() if k != "sequence"}
         sc = "(%s %s)" % (named_sexp(top), named_sexp(sidecar.get("sequence", {})))
-    line = "fh-csv (%s) (%s) %s" % (" ".join(hs(c) for c in header),
+    line = "fh-csv (%s) (%s) %s" % (" ".join(hs(c) for c in names),
                                     " ".join("(" + " ".join(cell_sexp(x) for x in r) + ")" for r in rows), sc)
     cases.append((line, impl, {k: case[k] for k in ("kind", "seed", "label", "index")}))
     ctx.count(("csv", ctx.seed, ctx._label, idx), len(rows) > 0,
@@ -755,7 +827,8 @@ def check_csv_text(ctx, rng, idx, tmp, cases, text=None):
 
     if text is None:
         kind = "soup"
-        text = '"a","b"' + rng.choice(["\n", "\r\n", "\r"]) + "".join(rng.choice(SOUP) for _ in range(rng.randint(0, 12)))
+        hdr = rng.choice(['"a","b"'] * 6 + ['"a","a"', '"a b","a%20b"', '"",""', '"a",""', '1,"a"', '"a",2', '"a.b","c d"', '"a","b","a"'])
+        text = hdr + rng.choice(["\n", "\r\n", "\r"]) + "".join(rng.choice(SOUP) for _ in range(rng.randint(0, 12)))
     else:
         kind = "file"
     path = os.path.join(tmp, "s%d.csv" % idx)
@@ -780,11 +853,50 @@ def check_csv_text(ctx, rng, idx, tmp, cases, text=None):
         impl, got = "(err)", None
     except Exception as e:  # noqa: BLE001
         impl, got = "escaped:" + type(e).__name__, None
+        ctx.oracle_fail("CSVHandler neither serves the file nor refuses it with OpenFileError", case, impl, "dataset or OpenFileError")
     canon = lambda recs: [[cell_sexp(c) for c in r] for r in recs]  # noqa: E731  (floats as bit patterns: nan == nan)
+    # what the property demands of the handler: the csv module's records, the titles under their DAP spelling; a header
+    # with a number for a title or with two titles of one name cannot be a sequence's columns: refused
+    titles_ok = want is not None and want and all(isinstance(t, str) for t in want[0]) and \
+        len(set(own_quote(t) for t in want[0])) == len(want[0])
+    if want_s != "err" and not titles_ok:
+        want_s = "err"
+    if want_s != "err":
+        want = [[own_quote(t) for t in want[0]]] + want[1:]
     if (got is None) != (want_s == "err") or (got is not None and canon(got) != canon(want)):
         ctx.oracle_fail("CSV records differ from the csv module's reading of the file (QUOTE_NONNUMERIC)", case,
-                        impl[:200], repr(want)[:200])
-    cases.append(("fh-csvtext %s %s" % (hs(text), float_table(text)), impl, {k: case[k] for k in ("kind", "seed", "label", "index")}))
+                        impl[:200], repr(want)[:200] if want_s != "err" else "file refused (OpenFileError)")
+    # the handler as a whole against the model: reader, header loop (quoting as a table), records, every column on its own
+    if got is not None:
+        seq = h.dataset["sequence"]
+        colvals = []
+        for c in seq.children():
+            if not rows:           # (a lazy sequence without source records cannot be read by column: open finding of C01/C04)
+                colvals.append("()")
+                continue
+            try:
+                colvals.append("(" + " ".join(cell_sexp(x) for x in seq[c.name].iterdata()) + ")")
+            except Exception as e:  # noqa: BLE001
+                colvals.append("escaped:" + type(e).__name__)
+        ragged = any(len(r) != len(header) for r in rows)
+        impl_h = "(ok (%s) (%s) (%s))" % (" ".join(hs(x) for x in header),
+                                          " ".join("(" + " ".join(cell_sexp(x) for x in r) + ")" for r in rows), " ".join(colvals))
+    else:
+        ragged = False
+        impl_h = impl
+    qtable = {}
+    try:
+        with open(path, newline="") as f:
+            for t in next(csv.reader(f, quoting=csv.QUOTE_NONNUMERIC), []):
+                if isinstance(t, str):
+                    qtable[t] = own_quote(t)
+    except (ValueError, csv.Error):
+        pass
+    if not ragged:          # (a column read on its own over records of uneven length is C17's business)
+        cases.append(("fh-csvhandler %s %s (%s)" % (hs(text), float_table(text), " ".join("(%s %s)" % (hs(k), hs(v)) for k, v in qtable.items())),
+                      impl_h, {k: case[k] for k in ("kind", "seed", "label", "index")}))
+    if all(own_quote(t) == t for t in qtable) and impl.startswith("(ok"):
+        cases.append(("fh-csvtext %s %s" % (hs(text), float_table(text)), impl, {k: case[k] for k in ("kind", "seed", "label", "index")}))
     ctx.count(("csvtext", text), kind == "soup" and impl != "(err)", tag="csvtext:%s:%s" % (kind, "ok" if impl != "(err)" else "rejected"),
               sample={"text": text[:60]})
 
